@@ -41,6 +41,7 @@ ASSUMPTIONS = [
     "paths named '<entry>#new' are temporaries by the statement and are not judged",
     "the symlink mtime is not part of the 'new' tuple (never applied by merge, see C18)",
 ]
+TIME_CAP = {"thorough": 3600}  # safety net on a shared machine; a capped run is reported as non-exhaustive
 BOUNDS = {
     "quick": "all 1-entry trees (7 kinds + dir) x 5 pre-existing live kinds x parent {dir, symlinked dir} x listed/omitted x offset/prefixed; 2-entry trees on F-G over {A,B,sd} and the "
     "cross-directory hardlink pair x live {absent,file,symf}; every event x {crash, torn, EIO, EXDEV}",
